@@ -526,8 +526,13 @@ def cases_of(job, res):
         if res['status'] == 'ok':
             run = 'c13.knn %s %s %d' % (res['emb'], enc_list(res['values']), job['k'])
             impl = 'ok %s %s' % (enc_list(res['labels']), res['probs'])
-            spec = 'c13.spec_knn %s %s %d %s %s %s' % (res['emb'], enc_list(res['values']), job['k'], EPS,
-                                                      enc_list(res['labels']), res['probs'])
+            # the label counts of each row (row * k rounded): the specification checks them against the row
+            ntrain = sum(1 for v in res['values'] if v >= 0)
+            kk = job['k'] if job['k'] < ntrain else ntrain - 1
+            cnts = ';'.join((','.join(str(int(round(float(x) * kk))) for x in r) if r else '-')
+                            for r in dec_fmat(res['probs'])) or '-'
+            spec = 'c13.spec_knn %s %s %d %s %s %s %s' % (res['emb'], enc_list(res['values']), job['k'], EPS,
+                                                         enc_list(res['labels']), res['probs'], cnts)
             vals = res['values']
             nontriv = len(set(v for v in vals if v >= 0)) >= 2 and any(v < 0 for v in vals)
             out.append(Case(key0, sig, run, impl, spec, nontriv, job, canon='knn'))
